@@ -1230,6 +1230,12 @@ def main(prop):
             V.note('impl_model_in_sync=false: %d of %d replayed model behaviours differ log for log from '
                    'the real execution (the contracts still judge the real execution)'
                    % (out_of_sync, len(replay_cases)))
+        if stats.get('model_out_of_sync'):
+            out_of_sync += stats['model_out_of_sync']
+            V.note('impl_model_in_sync=false: for %d accepted executions the implementation model '
+                   '(MuxModel, run by TLC on the recorded source events) does not reproduce the '
+                   'recorded logs, e.g. %s' % (stats['model_out_of_sync'],
+                                               json.dumps(stats['model_out_of_sync_samples'][:1])))
         V.phase('real executions + trace validation')
         if 'extra' in P:
             P['extra'](V, rng, thorough, stats)
@@ -1253,7 +1259,9 @@ def main(prop):
                                      **r.summary()} for (f, c, r) in lsc] + extra_mc,
             'trace_validation': {k: stats.get(k, 0) for k in ('states', 'transitions', 'tlc_runs',
                                                               'traces', 'rejected', 'untapped_runs',
-                                                              'plain_path_traces')},
+                                                              'plain_path_traces', 'model_in_sync',
+                                                              'model_out_of_sync',
+                                                              'model_not_applicable')},
             'distinct_pipelines': len({json.dumps(t['pipe'], sort_keys=True) for t in traces}),
             'tlc_behaviours_replayed': len(replay_cases),
             **({'apalache_inductive_invariant': apa} if apa else {}),
